@@ -160,11 +160,23 @@ def check_register(ctx, case):
         z1 = fn(a, b, out_like=T)
         out = F(None, s, w, f if op != 'mul' else 2 * f, overflow='wrap')
         z2 = fn(a, b, out=out)
-        return z1, z2
+        # sizing policy 'same' on wrap operands (the result inherits the first operand's wrap configuration)
+        z3 = fn(a, b, sizing='same')
+        # the exact (optimally sized) result stored into a wrap object of the register's format, by call and by equal()
+        reg = F(None, s, w, f if op != 'mul' else 2 * f, overflow='wrap')
+        z4 = reg(fn(a, b))
+        reg2 = F(None, s, w, f if op != 'mul' else 2 * f, overflow='wrap')
+        z5 = reg2.equal(fn(a, b))
+        # operator form with the sizing taken from the configuration
+        a.config.op_sizing = 'same'
+        z6 = (a + b) if op == 'add' else (a - b) if op == 'sub' else (a * b)
+        return z1, z2, z3, z4, z5, z6
     ok, res = ctx.guard(case, do, sig_prefix=sig + '/')
     if not ok:
         return
-    for name, z in zip(('out_like', 'out'), res):
+    for name, z in zip(('out_like', 'out', 'sizing-same', 'store-call', 'store-equal', 'operator-same'), res):
+        if name in ('sizing-same', 'operator-same') and op == 'mul' and f != 0:
+            continue
         try:
             k = C.codes(z)
         except ValueError as e:
